@@ -655,7 +655,7 @@ class dictable(Dict):
             check = lambda value: value in as_list(none)
         else:
             check = none
-        res = self
+        res = self.copy() # columns are replaced in the copy, the table itself is not altered
         for key, value in kwargs.items():
             if key not in res.keys(): ## revert back to simple calc
                 res = res(**{key: value})
